@@ -21,6 +21,7 @@ class MemFile:
     def __init__(self, path, mode='r'):
         self.path = str(path)
         self.mode = mode
+        EVENTS.append(('open', self.path.rsplit('/', 1)[-1], mode, tuple(HELD)))
         if mode == 'w':
             MemFile.store[self.path] = ''
         elif mode == 'r' and self.path not in MemFile.store:
@@ -53,10 +54,26 @@ class MemFile:
         MemFile.store[self.path] = MemFile.store.get(self.path, '') + s
 
 
+EVENTS = []      # ('lock'|'unlock', file, shared) and ('open', file, mode, locks held) in program order
+HELD = []        # (file, shared) currently held
+
+
+@contextlib.contextmanager
+def _recording_path_lock(path, shared=False, blocking=True, reentrant=False):
+    name = str(path).rsplit('/', 1)[-1]
+    EVENTS.append(('lock', name, shared))
+    HELD.append((name, shared))
+    try:
+        yield 0
+    finally:
+        HELD.remove((name, shared))
+        EVENTS.append(('unlock', name, shared))
+
+
 _TMP = pathlib.Path(tempfile.mkdtemp(prefix='c16ctx'))
 lc.open = MemFile
 pathlib.PosixPath.touch = lambda self, *a, **k: None      # lock files: no real side effects under tracing
-lc.path_lock = lambda *a, **k: contextlib.nullcontext()
+lc.path_lock = _recording_path_lock
 
 
 def _ctx():
@@ -100,6 +117,59 @@ def ann_linebreak(name: str, ann: str) -> bool:
     ctx = _ctx()
     ctx.store_annotation(name, ann)
     return ctx.retrieve_annotation(name) == ann
+
+
+def _atomic_rmw(events, fname, lockname):
+    """every write of `fname` happens under an exclusive hold of `lockname`, and the read it is based on (the last
+    read of `fname` before it) lies inside the SAME hold: the read-modify-write is one critical section."""
+    section = 0
+    read_section = None
+    ok_any = False
+    for ev in events:
+        if ev[0] == 'lock' and ev[1] == lockname:
+            section += 1
+        elif ev[0] == 'open' and ev[1] == fname:
+            held_ex = (lockname, False) in ev[3]
+            if ev[2] == 'r':
+                read_section = section if ((lockname, False) in ev[3] or (lockname, True) in ev[3]) else None
+                if (lockname, False) not in ev[3]:
+                    read_section = ('shared-or-none', section)
+            elif ev[2] in ('w', 'a'):
+                if not held_ex:
+                    return False
+                if ev[2] == 'w' and read_section != section:
+                    return False
+                ok_any = True
+    return ok_any
+
+
+def ann_atomic(name: str, ann: str) -> bool:
+    """
+    store_annotation is one critical section: the rewrite of the annotations file and the read it is based on happen
+    under one exclusive hold of the annotations lock (otherwise two concurrent writers lose an update); store_message
+    appends under the exclusive log lock.
+    pre: _name_ok(name)
+    pre: len(ann) <= 2 and all(c in 'ab ' for c in ann)
+    post: _ == True
+    """
+    ctx = _ctx()
+    ctx.store_annotation('m1', 'x')
+    del EVENTS[:]
+    ctx.store_annotation(name, ann)
+    ok1 = _atomic_rmw(list(EVENTS), 'annotations', 'annotations.lock')
+    del EVENTS[:]
+    ctx.store_message('info', 'ctx', '2024-01-01 10:00:00', ann)
+    ok2 = _atomic_rmw(list(EVENTS), 'log.csv', 'log.lock')
+    return ok1 and ok2 and not HELD
+
+
+def ann_atomic__twin(name: str, ann: str) -> bool:
+    """
+    pre: _name_ok(name)
+    pre: len(ann) <= 2 and all(c in 'ab ' for c in ann)
+    post: _ == True
+    """
+    return not ann_atomic(name, ann)
 
 
 def _rfc4180(text):
